@@ -332,7 +332,9 @@ func runConcScenario(c07, c08 *verifrt.Result, base string, s *concScenario, rnd
 			} else if len(s.Skew) > 0 {
 				st = st.Add(s.Skew[len(s.Skew)-1][0])
 			}
-			ups[u] = mkUploader(td.dir, s.Cfg, "v1.2.3", srv.srv.URL, st)
+			// (a new configuration version is published between rounds: pending
+			// reports carry the version they were built under and are sent as they are)
+			ups[u] = mkUploader(td.dir, s.Cfg, fmt.Sprintf("v1.2.%d", 3+round), srv.srv.URL, st)
 			sc.Go(fmt.Sprintf("U%d", u), func() { ups[u].Run() })
 		}
 		var ka []int
